@@ -96,6 +96,10 @@ TARGETS = [
     ("FloatToQuantity", "new", "g_f2q_new"), ("QuantityToFloat", "new", "g_q2f_new"), ("FreezeStream", "new", "g_freeze_new"),
     ("GetterFromHistory", "new_no_delta", "g_gfh_new_no_delta"), ("GetterFromHistory", "new_custom_delta", "g_gfh_new_custom_delta"),
     ("ConstantGetter", "new", "g_cg_new"), ("Terminal", "new_raw", "g_term_new_raw"),
+    # small helpers of src/datum.rs and src/lib.rs
+    ("Datum", "replace_if_older_than", "g_datum_replace_if_older_than"),
+    ("Datum<Command>", "try_from", "g_tdata_to_command"), ("Datum<State>", "try_from", "g_tdata_to_state"),
+    ("Time", "get", "g_time_get"),
     ("EWMAStream", "get", "g_ewma_get"), ("EWMAStream<Quantity>", "get", "g_ewma_q_get"),
     ("MovingAverageStream", "get", "g_ma_get"), ("MovingAverageStream<Quantity>", "get", "g_ma_q_get"),
     ("DerivativeStream", "get", "g_deriv_get"), ("IntegralStream", "get", "g_integ_get"),
